@@ -12,7 +12,7 @@ fn pats(v) {
   let A(p, ..) = v
   let m.A(1, "s") = v
   let "pre" <> rest = v
-  let w as whole = v
+  let [w] as whole = v
   let _ = v
   let _ignored = v
   let -1 = v
